@@ -86,7 +86,7 @@ claim("C15",
       "Decides completely the name-table clause: to_str/from_str agree per constant, names are distinct, unknown names/constants are refused. "
       "Decides: every dispatcher has a case per constant routed to the T-comp pair with data arguments forwarded and the level forwarded where one exists; "
       "each compressor's capacity and allocation derive from the library's own bound function of the input size; every library result is tested with that "
-      "library's predicate before success is reported (zero content size legal, both zstd sentinels excluded); lz4 prefix framing agrees across the three "
+      "library's predicate before success is reported (a zero content size and a zero byte count from LZ4_decompress_safe are legal results and must not be refused, both zstd sentinels excluded); lz4 prefix framing agrees across the three "
       "siblings; levels reaching zlib/lz4hc/zstd are clamped into the legal interval on every path; failure exits free the output; when the inflate buffer grows zlib is told exactly the room that was added at the old end; every realloc size is provably positive. The libraries' own "
       "round-trip behaviour on every buffer is not decided. Also decides (R9), by interpreting the allocation wrappers over an allocator model, that my_malloc/my_calloc/my_realloc pass every size - 0 and sizes beyond 2^32 included - to the C library and fail only on NULL.",
       "Trusts T-comp/T-liberr (library contracts transcribed from their headers), that library calls write only through the pointers they are handed, "
